@@ -228,6 +228,18 @@ impl Log {
         all
     }
 
+    /// Copies of the records stamped at or after `clock` (the log keeps them).
+    pub fn since(&self, clock: u64) -> Vec<Stamped> {
+        let mut all = Vec::new();
+        for b in &self.bufs {
+            let b = b.lock().unwrap();
+            let from = b.partition_point(|x| x.0 < clock);
+            all.extend(b[from..].iter().cloned());
+        }
+        all.sort_by_key(|x| x.0);
+        all
+    }
+
     pub fn clear(&self) {
         for b in &self.bufs {
             b.lock().unwrap().clear();
